@@ -2320,3 +2320,138 @@ def a36s(m, run):
                     bad.append(((p, q, order, su, sv), why))
     run.ob('A36S.default-evaluator-exact', '%s :: %d (degrees, order, spans) cases' % (fs.key, ns), not bad, 'every derivative is the double sum of A3.6 as a polynomial identity' if not bad else
            '(p, q, order, span_u, span_v) = %s: %s   [%d of %d cases]' % (bad[0][0], bad[0][1], len(bad), ns), 'geomdl/evaluators.py:%d in %s' % (fs.node.lineno, fs.key))
+
+
+# ====================================================================================== C02: hodographs on recorder shapes
+def rec_shape(cls, made, attrs, opts=None, origin='input'):
+    """recorder standing for a BSpline shape: plain attributes, remembers how it came to be (deep copy of / constructed with which
+    options) so that a rule can ask whether a derived shape keeps the settings of its input"""
+    b = Bag('rec:' + cls[1], **attrs)
+    b._a['__isa__'] = (cls,)
+    b._a['_origin'] = origin
+    b._a['_opts'] = dict(opts or {})
+
+    def dc(x):
+        c = rec_shape(cls, made, {k: deepcopy_plain(v) for k, v in x._a.items() if not k.startswith('__') and k not in ('_origin', '_opts')}, x._a['_opts'], 'deepcopy')
+        return c
+
+    def ctor(sk, node, *a, **k):
+        return rec_shape(cls, made, {}, dict(k), 'constructed')
+    b._a['__deepcopy__'] = dc
+    b._a['__class__'] = Py(ctor, '__class__')
+    made.append(b)
+    return b
+
+
+def deepcopy_plain(v):
+    if isinstance(v, list):
+        return [deepcopy_plain(x) for x in v]
+    if isinstance(v, dict):
+        return {k: deepcopy_plain(x) for k, x in v.items()}
+    return v
+
+
+def hd3(m, run):
+    """HD3: operations.derivative_curve / derivative_surface interpreted on a recorder shape created with normalize_kv=False, the derivative
+    control point helper replaced by a labelled table: every hodograph keeps the parametrisation of its input (it is a deep copy of the
+    input or is constructed with the input's normalize_kv), lowers the degree and drops the end knots in the differentiated directions only,
+    and takes the block of the derivative control points of its own order without the last row / column of a differentiated direction"""
+    def L(*lab):
+        return Tok('DEF', dep=frozenset([lab]))
+
+    def labs(x):
+        return [sorted(v.dep)[0] if isinstance(v, Tok) and v.dep and len(v.dep) == 1 else None for v in x] if isinstance(x, (list, tuple)) else None
+
+    def keeps(b):
+        if b._a['_origin'] == 'deepcopy':
+            return True
+        if b._a['_origin'] == 'constructed':
+            return b._a['_opts'].get('normalize_kv', True) is False
+        return False
+    # ---- curve
+    fc = m.func('operations.derivative_curve')
+    p, n = 3, 6
+    made = []
+    kv = [L('kv', i) for i in range(n + p + 1)]
+    obj = rec_shape(('BSpline', 'Curve'), made, dict(degree=p, knotvector=kv, ctrlpts=pts(n, 3, labelled=True), ctrlpts_size=n, dimension=3, rational=False, delta=0.01,
+                                                     pdimension=1, _kv_normalize=False, sample_size=7), {'normalize_kv': False})
+    asked = {}
+
+    def cdc(sk, node, dim, degree, kv_, cp, *a, **k):
+        asked.update(degree=degree, kv=kv_, rs=tuple(k.get('rs', a[0] if a else ())), do=k.get('deriv_order', a[1] if len(a) > 1 else None))
+        return [[[L('PK', kk, j, c) for c in range(3)] for j in range(n)] for kk in range(asked['do'] + 1)]
+    ab = dict(STD_ABSTRACTED)
+    ab[('helpers', 'curve_deriv_cpts')] = Py(cdc, 'curve_deriv_cpts')
+    sk = SK(m, ab)
+    why = None
+    try:
+        out = sk.call(fc, [obj], {})
+        if not isinstance(out, Bag) or out is obj:
+            why = 'does not return a new shape'
+        elif asked.get('degree') != p or asked.get('kv') is not kv or asked.get('rs') != (0, n - 1) or (asked.get('do') or 0) < 1:
+            why = 'curve_deriv_cpts is not asked for the first derivative control points of the whole curve (degree, knot vector, window (0, n-1)): %r' % ({k: v for k, v in asked.items() if k != 'kv'},)
+        elif not keeps(out):
+            why = 'the hodograph is constructed with the options %r: an input built with normalize_kv=False is re-parametrised onto [0, 1]' % (out._a['_opts'],)
+        elif out._a.get('degree') != p - 1:
+            why = 'the hodograph has degree %r, expected %d' % (out._a.get('degree'), p - 1)
+        elif labs(out._a.get('knotvector')) != [('kv', i) for i in range(1, n + p)]:
+            why = 'the hodograph knot vector is not the input knot vector without its first and last knot'
+        else:
+            cp = out._a.get('ctrlpts')
+            got = [labs(pt) for pt in cp] if isinstance(cp, list) else None
+            if got != [[('PK', 1, j, c) for c in range(3)] for j in range(n - 1)]:
+                why = 'the hodograph control points are not the first-derivative control points PK[1][0 .. n-2]'
+    except Violation as v:
+        why = '%s %s' % (v.msg, v.where())
+    except Unsupported as ex:
+        raise AnalysisError('%s: interpreter met an unsupported construct: %s' % (fc.key, ex))
+    run.ob('HD3.hodograph-on-recorder-shape', fc.key, why is None, 'keeps the parametrisation; degree p-1, knots [1:-1], control points PK[1][0:-1]' if why is None else why,
+           'geomdl/operations.py:%d in %s' % (fc.node.lineno, fc.key))
+    # ---- surface
+    fs = m.func('operations.derivative_surface')
+    p, q, nu, nv = 3, 2, 5, 4
+    made = []
+    kvu, kvv = [L('ku', i) for i in range(nu + p + 1)], [L('kv', i) for i in range(nv + q + 1)]
+    obj = rec_shape(('BSpline', 'Surface'), made, dict(degree=[p, q], degree_u=p, degree_v=q, knotvector=[kvu, kvv], knotvector_u=kvu, knotvector_v=kvv,
+                                                       ctrlpts=pts(nu * nv, 3, labelled=True), cpsize=[nu, nv], ctrlpts_size_u=nu, ctrlpts_size_v=nv, dimension=3,
+                                                       rational=False, delta=[0.01, 0.01], pdimension=2, _kv_normalize=False), {'normalize_kv': False})
+    asked = {}
+
+    def sdc(sk, node, dim, degree, kv_, cp, size, *a, **k):
+        asked.update(degree=list(degree), kvs=kv_, rs=tuple(k.get('rs', a[0] if a else ())), ss=tuple(k.get('ss', a[1] if len(a) > 1 else ())), do=k.get('deriv_order', a[2] if len(a) > 2 else None))
+        return [[[[[L('PKL', kk, ll, i, j, c) for c in range(3)] for j in range(nv)] for i in range(nu)] for ll in range(3)] for kk in range(3)]
+    ab = dict(STD_ABSTRACTED)
+    ab[('helpers', 'surface_deriv_cpts')] = Py(sdc, 'surface_deriv_cpts')
+    sk = SK(m, ab)
+    why = None
+    try:
+        out = sk.call(fs, [obj], {})
+        if not isinstance(out, (tuple, list)) or len(out) != 3:
+            why = 'does not return three shapes'
+        elif asked.get('degree') != [p, q] or asked.get('rs') != (0, nu - 1) or asked.get('ss') != (0, nv - 1) or (asked.get('do') or 0) < 2 \
+                or not (len(asked.get('kvs', ())) == 2 and asked['kvs'][0] is kvu and asked['kvs'][1] is kvv):
+            why = 'surface_deriv_cpts is not asked for the derivative control points of the whole surface up to order 2'
+        else:
+            for name, s, (du, dv) in zip(('S_u', 'S_v', 'S_uv'), out, ((1, 0), (0, 1), (1, 1))):
+                if not isinstance(s, Bag) or s is obj:
+                    why = '%s is not a new shape' % name
+                elif not keeps(s):
+                    why = '%s is constructed with the options %r: an input built with normalize_kv=False is re-parametrised onto [0, 1]' % (name, s._a['_opts'])
+                elif (s._a.get('degree_u'), s._a.get('degree_v')) != (p - du, q - dv):
+                    why = '%s has degrees (%r, %r), expected (%d, %d)' % (name, s._a.get('degree_u'), s._a.get('degree_v'), p - du, q - dv)
+                elif labs(s._a.get('knotvector_u')) != [('ku', i) for i in range(du, nu + p + 1 - du)] or labs(s._a.get('knotvector_v')) != [('kv', i) for i in range(dv, nv + q + 1 - dv)]:
+                    why = '%s: the end knots are dropped exactly in the differentiated direction(s)' % name
+                else:
+                    g = s._a.get('ctrlpts2d')
+                    got = [[labs(pt) for pt in row] for row in g] if isinstance(g, list) and all(isinstance(r, list) for r in g) else None
+                    want = [[[('PKL', du, dv, i, j, c) for c in range(3)] for j in range(nv - dv)] for i in range(nu - du)]
+                    if got != want:
+                        why = '%s: the control point net is not PKL[%d][%d] without the last %s' % (name, du, dv, ' / '.join((['row'] if du else []) + (['column'] if dv else [])))
+                if why:
+                    break
+    except Violation as v:
+        why = '%s %s' % (v.msg, v.where())
+    except Unsupported as ex:
+        raise AnalysisError('%s: interpreter met an unsupported construct: %s' % (fs.key, ex))
+    run.ob('HD3.hodograph-on-recorder-shape', fs.key, why is None, 'S_u, S_v, S_uv keep the parametrisation; degrees, knots and nets of their own differentiated directions' if why is None else why,
+           'geomdl/operations.py:%d in %s' % (fs.node.lineno, fs.key))
